@@ -89,7 +89,20 @@ class SideResolver:
                     return {l}
                 e = self.rend.local(l, 30)
                 if e == ("var", name):
-                    return set()
+                    # assigned in several places (an expanded Option::map, a `let x = if ..`): every definition counts
+                    if getattr(self, "_busy", None) is None:
+                        self._busy = set()
+                    if l in self._busy:
+                        return set()
+                    self._busy.add(l)
+                    out = set()
+                    for bi, si, st in fv.defs().get(l, []):
+                        if bi not in fv.live:
+                            continue
+                        de = self.rend.call_expr(st, 30, bi) if si == "t" else self.rend.rvalue(st["rv"], 30)
+                        out |= self.roots(de)
+                    self._busy.discard(l)
+                    return out
                 return self.roots(e)
         # captured variable of a closure: resolve in the parent
         if self.parent is not None:
@@ -322,56 +335,102 @@ def _ga(prog, s):
 
 
 def check_evpn_cmp(prog, efv, r):
-    rend = Renderer(efv, depth=40)
-    side = SideResolver(prog, efv)
-    defs0 = efv.defs().get(0, [])
+    """Decision table of evpn_type2_cmp over its entry->return paths (deep view: Option::map / and_then expanded):
+         a has MAC mobility, b has not -> Less;  b has, a has not -> Greater;  neither -> RibEntry::cmp(a, b);
+         both -> higher sequence first (descending), ties broken by RibEntry::cmp(a, b).
+    The same table whether it is a `match` on the tuple, let-else guards, or a then_with chain."""
+    from ..paths import enumerate_paths, PathLimit
+    from ..util import view_deep
     if not efv.calls(re.compile(r".*evpn::mac_mobility")):
         r.unanalysable("evpn_type2_cmp no longer calls mac_mobility", efv.loc())
         return
-    brs = branches(efv)
-    n_chain = n_plain = n_const = 0
-    for bi, si, s in defs0:
-        if si == "t":
-            e = rend.call_expr(s, 40, bi)
+    dv = view_deep(prog, efv.key)
+    rend = Renderer(dv, depth=40, through_names=True)
+    side = SideResolver(prog, dv)
+    try:
+        paths = enumerate_paths(dv, rend, max_paths=4000)
+    except PathLimit:
+        r.unanalysable("evpn_type2_cmp: too many paths", efv.loc())
+        return
+    seen = {}
+    problems = {}
+    for conds, blocks, env in paths:
+        has = {}
+        eq_seq = None
+        for br, labels in conds:
+            e, lab = br.expr, set(labels)
+            if len(lab) != 1:
+                continue
+            calls = [x for x in walk(e) if isinstance(x, tuple) and x and x[0] == "call"]
+            if any(c[1].endswith("evpn::mac_mobility") for c in calls) and (e[0] == "discr" and lab <= {"Some", "None"} or
+                                                                             e[0] == "call" and re.search(r"Option::<T>::is_(some|none)$", e[1])):
+                roots = side.roots(e)
+                present = (lab == {"Some"}) if e[0] == "discr" else ((lab == {"true"}) == e[1].endswith("is_some"))
+                if roots == {1}:
+                    has.setdefault("a", present)
+                elif roots == {2}:
+                    has.setdefault("b", present)
+            if e[0] == "call" and re.search(r"Ordering::is_(ne|eq)$", e[1]) and lab <= {"true", "false"}:
+                eq_seq = (lab == {"true"}) == e[1].endswith("is_eq")
+        res = env.get((0, ()))
+        pos = {b: i for i, b in enumerate(blocks)}
+        if res in ("Less", "Greater", "Equal"):
+            kind = ("const", res)
         else:
-            e = rend.rvalue(s["rv"], 40)
-        if e[0] == "agg" and "Ordering" in str(e[1]):
-            # constant outcome: Less only when a has mobility and b has not; Greater for the mirror case
-            n_const += 1
-            want = e[2]
-            conds = _tuple_match_conds(efv, bi, rend, side)
-            exp = {"Less": {"0": "Some", "1": "None"}, "Greater": {"0": "None", "1": "Some"}}.get(want)
-            if exp is None or conds != exp:
-                r.fail(efv.name, "const:%s" % want, "constant outcome %s under match arm %s (want %s)" % (want, conds, exp), efv.loc(bi))
+            ds = [d for d in dv.defs().get(0, []) if d[0] in pos]
+            if not ds:
+                continue
+            bi, si, st = max(ds, key=lambda d: pos[d[0]])
+            e0 = rend.call_expr(st, 40, bi) if si == "t" else rend.rvalue(st["rv"], 40)
+            steps, probs = parse_chain(prog, dv, e0, side)
+            if probs:
+                problems.setdefault("shape", probs[0])
+                continue
+            desc = []
+            for a, b, flip, sfv, sside, cmpname in steps:
+                ra, rb = sside.roots(a), sside.roots(b)
+                d = "asc" if (ra, rb) == ({1}, {2}) else "desc" if (ra, rb) == ({2}, {1}) else "?"
+                if flip and d != "?":
+                    d = "desc" if d == "asc" else "asc"
+                if re.search(r"RibEntry as std::cmp::Ord>::cmp", cmpname):
+                    desc.append(("defer", d))
+                else:
+                    desc.append(("seq" if (_from_mac_mobility(sfv, a) or "mac_mobility" in show(a, 600) or "u32" in cmpname) else "?", d))
+            kind = ("chain", tuple(desc))
+        key = (has.get("a"), has.get("b"))
+        seen.setdefault(key, set()).add((kind, eq_seq))
+    want_const = {(True, False): "Less", (False, True): "Greater"}
+    for key, kinds in sorted(seen.items(), key=str):
+        a_, b_ = key
+        for kind, eq_seq in kinds:
+            if a_ is None or b_ is None:
+                # one side never examined on this path: only legitimate when the result does not depend on it
+                if (a_, b_) == (False, None) or (a_, b_) == (None, None):
+                    pass
+            if key in want_const:
+                if kind != ("const", want_const[key]):
+                    problems.setdefault("const:%s" % want_const[key], "with MAC mobility on %s only the result is %s (want %s)" % ("a" if a_ else "b", kind, want_const[key]))
+            elif key == (False, False):
+                if kind != ("chain", (("defer", "asc"),)):
+                    problems.setdefault("arm@none", "without MAC mobility on either side the result is %s (want RibEntry::cmp(a, b))" % (kind,))
+            elif key == (True, True):
+                ok = kind in (("chain", (("seq", "desc"), ("defer", "asc"))),) or \
+                    (kind == ("chain", (("seq", "desc"),)) and eq_seq is False) or (kind == ("chain", (("defer", "asc"),)) and eq_seq is True)
+                if not ok:
+                    problems.setdefault("arm@both", "with MAC mobility on both sides the result is %s (sequence tie=%s); want the higher sequence first, ties by RibEntry::cmp(a, b)" % (kind, eq_seq))
             else:
-                r.ok("%s: %s under (a,b)=(%s,%s)" % (short(efv.name), want, conds["0"], conds["1"]))
-            continue
-        steps, problems = parse_chain(prog, efv, e, side)
-        for p in problems:
-            r.unanalysable(p, efv.loc(bi))
-        if problems:
-            continue
-        desc = []
-        for a, b, flip, sfv, sside, cmpname in steps:
-            ra, rb = sside.roots(a), sside.roots(b)
-            d = "asc" if (ra, rb) == ({1}, {2}) else "desc" if (ra, rb) == ({2}, {1}) else "?"
-            if flip and d != "?":
-                d = "desc" if d == "asc" else "asc"
-            if re.search(r"RibEntry as std::cmp::Ord>::cmp", cmpname):
-                desc.append(("defer", d))
-            else:
-                toks = expr_tokens(prog, a) | _local_tokens(sfv, a, prog)
-                desc.append(("mac_mobility" if _from_mac_mobility(sfv, a) else "?", d))
-        if desc == [("defer", "asc")]:
-            n_plain += 1
-            r.ok("%s: plain arm defers to RibEntry::cmp(a, b)" % short(efv.name))
-        elif desc == [("mac_mobility", "desc"), ("defer", "asc")]:
-            n_chain += 1
-            r.ok("%s: sequence desc, then RibEntry::cmp(a, b)" % short(efv.name))
+                problems.setdefault("arm@partial", "a result (%s) is produced on a path that examined MAC mobility of %s only" % (kind, "a" if b_ is None else "b"))
+    for k_, msg in sorted(problems.items()):
+        if k_ == "shape":
+            r.unanalysable(msg, efv.loc())
         else:
-            r.fail(efv.name, "arm@%s" % "-".join("%s:%s" % d for d in desc), "arm ranks %s; want mac_mobility:desc then defer:asc" % desc, efv.loc(bi))
-    if n_chain < 1 or n_plain < 1 or n_const < 2:
-        r.unanalysable("evpn_type2_cmp arms: chain=%d plain=%d const=%d (want >=1,>=1,>=2)" % (n_chain, n_plain, n_const), efv.loc())
+            r.fail(efv.name, k_, "evpn_type2_cmp: " + msg, efv.loc())
+    need = {(True, False), (False, True), (False, False), (True, True)}
+    if not problems:
+        if need <= set(seen):
+            r.ok("evpn_type2_cmp: Less / Greater when only one side has MAC mobility, higher sequence first when both have, RibEntry::cmp otherwise (%d paths)" % len(paths))
+        else:
+            r.unanalysable("evpn_type2_cmp: decision table incomplete: %s" % sorted(map(str, set(seen))), efv.loc())
 
 
 def _from_mac_mobility(fv, e):
@@ -604,6 +663,17 @@ def check_resort(prog, r):
                     reach_wo_sort = fv.reach_after(bi, real_sorts)
                     if h in reach_wo_sort or any(x in reach_wo_sort for x in fv.returns()):
                         skipped = h
+                if skipped is not None:
+                    # the plain CFG says a path skips the sort; a flag set together with the write (`seen = true; mark(); ..
+                    # if !seen { continue }`) makes that path infeasible: re-examine with constants propagated along paths
+                    from ..paths import enumerate_paths, PathLimit
+                    try:
+                        ps_ = enumerate_paths(fv, Renderer(fv, depth=8), max_paths=20000)
+                        with_write = [blocks for conds, blocks, env in ps_ if bi in blocks]
+                        if with_write and all(any(s_ in blocks[blocks.index(bi):] for s_ in real_sorts) for blocks in with_write):
+                            skipped = None
+                    except PathLimit:
+                        pass
                 if skipped is not None:
                     r.fail(fv.name, "resort-skipped:%s" % wname, "after %s the destination's entry list can be left unsorted: a path from the write reaches the next destination (or the return) "
                            "without passing the re-sort — the stale flag changes the order of this source's entries whether or not they are filtered" % wname, fv.loc(bi))
